@@ -49,6 +49,8 @@ type SetGenOpts struct {
 	PoolSize    int
 	CPs         []string
 	ChainBias   bool // later sets usually declare all earlier ones as previous
+	Specials    []string // violating-object classes to mix in (C11)
+	SpecialRate int      // one in SpecialRate objects is special (default 4)
 	// Exclusive: pool indexes already used are avoided (no duplicates inside one set is always enforced).
 }
 
@@ -83,11 +85,24 @@ func GenSet(t *rapid.T, o SetGenOpts) SetSpec {
 			if ph.Class == engine.ClassRemote {
 				idx = engine.NativePoolSize + idx%engine.RemotePoolSize
 			}
-			if used[idx] {
+			special := ""
+			if len(o.Specials) > 0 {
+				rate := o.SpecialRate
+				if rate == 0 {
+					rate = 4
+				}
+				if rapid.IntRange(0, rate-1).Draw(t, "isspecial") == 0 {
+					special = rapid.SampledFrom(o.Specials).Draw(t, "special")
+				}
+			}
+			if used[idx] && special != "dup" {
 				continue
 			}
+			if special == "dup" && !used[idx] {
+				special = ""
+			}
 			used[idx] = true
-			os := ObjSpec{Pool: idx, Variant: rapid.IntRange(0, 2).Draw(t, "variant")}
+			os := ObjSpec{Pool: idx, Variant: rapid.IntRange(0, 2).Draw(t, "variant"), Special: special}
 			if len(o.CPs) > 0 {
 				os.CP = rapid.SampledFrom(o.CPs).Draw(t, "cp")
 			}
